@@ -138,10 +138,10 @@ theorem fields_spec (n : Int) (h : IsSerial n) :
 
 /-! ### WEEKDAY: every return type is the documented rotation of the ISO weekday -/
 
-/-- table obligation on the tuples extracted from date.py (`Gen.C18Date`): the default tuple is return
+/-- table obligation on the tables observed by probing the running WEEKDAY (`Gen.C18Date`): the default tuple is return
     type 1, every row lists for Monday … Sunday the numbers of the return type its key stands for (so a
     key outside 1, 2, 3, 11 … 17 or a tuple that is too short cannot occur), and every documented return
-    type has a row.  Re-checked against what the code says now on every run. -/
+    type has a row.  Re-checked against what the code does now on every run. -/
 theorem weekday_tables : tableOK = true := by decide
 
 /-- `weekday_types`: for every serial and every return type — omitted, valid or invalid — WEEKDAY is
